@@ -119,6 +119,7 @@ func (b *byzState) items(id int) []byzItem {
 				}
 				pa := mk(dbft.PrepareRequestType, &prepReq{ts: ts, nonce: 0xA0 + uint64(v), txs: txA})
 				pb := mk(dbft.PrepareRequestType, &prepReq{ts: ts, nonce: 0xB0 + uint64(v), txs: nil})
+				pa.srcNode, pb.srcNode = -1, -1
 				add(pa, "proposal A")
 				add(pb, "proposal B")
 				props = append(props, pa, pb)
@@ -134,9 +135,9 @@ func (b *byzState) items(id int) []byzItem {
 					add(mk(dbft.PrepareResponseType, &prepResp{q.Hash()}), "response for a known proposal")
 				}
 				bh := blockHash(h, prev, r.ts, r.nonce, r.txs)
-				add(mk(dbft.CommitType, &commitBody{mkSig('B', id, bh)}), "valid commit for a known proposal")
+				add(mk(dbft.CommitType, &commitBody{mkSig('B', id, bh)}), "commit for "+propName(q, id))
 				if amev {
-					add(mk(dbft.PreCommitType, &preCommitBody{mkSig('P', id, bh^0x5050505050505050)}), "valid precommit for a known proposal")
+					add(mk(dbft.PreCommitType, &preCommitBody{mkSig('P', id, bh^0x5050505050505050)}), "precommit for "+propName(q, id))
 				}
 			}
 			add(mk(dbft.PrepareResponseType, &prepResp{H(0xbad0 + uint64(v))}), "response for unknown hash")
@@ -174,6 +175,42 @@ func (b *byzState) items(id int) []byzItem {
 		}
 	}
 	return out
+}
+
+func propName(q *Payload, id int) string {
+	if q.srcNode >= 0 {
+		return "wire proposal"
+	}
+	if q.body.(*prepReq).nonce&0xf0 == 0xA0 {
+		return "proposal A"
+	}
+	return "proposal B"
+}
+
+// runScript executes the scripted (cost-0) sends of a base scenario.
+func (b *byzState) runScript() {
+	for _, st := range b.w.sc.ByzScript {
+		done := false
+		for _, id := range b.ids {
+			for _, it := range b.items(id) {
+				if it.desc == st.Item && int(it.p.view) == st.View {
+					b.sent[[2]uint64{uint64(it.p.Hash()), uint64(st.Mask)}] = true
+					var dsts []int
+					for _, n := range b.w.nodes {
+						if uint64(st.Mask)&(1<<n.id) != 0 {
+							dsts = append(dsts, n.id)
+						}
+					}
+					b.w.inject(it.p, dsts)
+					done = true
+					break
+				}
+			}
+		}
+		if !done {
+			panic(harnessFault{"byzantine script item not available: " + st.Item})
+		}
+	}
 }
 
 func (b *byzState) dstMasks(id int) []uint64 {
